@@ -24,6 +24,12 @@ type kv interface {
 	put(name string, payload []byte) error
 	del(name string) error
 	query(prefix string) (*iterator.Iterator, error)
+	// meta reads only the record's metadata (storage.MetaHandler); ok=false if this
+	// access path does not offer it as a call of its own
+	meta(name string) (m *record.Meta, err error, ok bool)
+	// putLowPriv writes through an interface without full permissions: database.Interface
+	// then asks the backend for the existing record's metadata first (getMeta -> GetMeta)
+	putLowPriv(name string, payload []byte, asNew bool) (err error, ok bool)
 }
 
 type directKV struct{ st storage.Interface }
@@ -44,7 +50,29 @@ func (d directKV) query(prefix string) (*iterator.Iterator, error) {
 	return d.st.Query(query.New("c18:"+prefix), true, true)
 }
 
-type dbKV struct{ db *database.Interface }
+func (d directKV) meta(name string) (*record.Meta, error, bool) {
+	mh, ok := d.st.(storage.MetaHandler)
+	if !ok {
+		return nil, nil, false
+	}
+	m, err := mh.GetMeta(name)
+	return m, err, true
+}
+func (d directKV) putLowPriv(string, []byte, bool) (error, bool) { return nil, false }
+
+type dbKV struct{ db, low *database.Interface }
+
+func (d dbKV) meta(string) (*record.Meta, error, bool) { return nil, nil, false }
+func (d dbKV) putLowPriv(name string, payload []byte, asNew bool) (error, bool) {
+	w, err := record.NewWrapper("c18db:"+name, nil, dsd.JSON, payload)
+	if err != nil {
+		return err, true
+	}
+	if asNew {
+		return d.low.PutNew(w), true
+	}
+	return d.low.Put(w), true
+}
 
 func (d dbKV) get(name string) (record.Record, error) { return d.db.Get("c18db:" + name) }
 func (d dbKV) put(name string, payload []byte) error {
@@ -83,7 +111,8 @@ func runFstree(c *cctx, viaDB bool) {
 			c.b.Inconclusive("database.Register failed: %v", err)
 			return
 		}
-		s = dbKV{database.NewInterface(&database.Options{Local: true, Internal: true})}
+		s = dbKV{db: database.NewInterface(&database.Options{Local: true, Internal: true}),
+			low: database.NewInterface(&database.Options{Local: true, Internal: false})}
 	} else {
 		st, err := fstree.NewFSTree("c18", c.sb.Root)
 		if err != nil {
@@ -132,8 +161,31 @@ func runFstree(c *cctx, viaDB bool) {
 		r1 := c.do(ni, "Get", get)
 		r2 := c.do(ni, "Put", func() (error, [][]byte) { return s.put(name, payload), nil })
 		r3 := c.do(ni, "Get", get)
+		var rm, r6 *opRes
+		if !viaDB {
+			rm = c.do(ni, "GetMeta", func() (error, [][]byte) {
+				m, err, _ := s.meta(name)
+				if err == nil && m == nil {
+					err = errors.New("GetMeta returned neither metadata nor an error")
+				}
+				return err, nil
+			})
+		}
 		r4 := c.do(ni, "Query", qry)
 		r5 := c.do(ni, "Delete", func() (error, [][]byte) { return s.del(name), nil })
+		if viaDB {
+			opn := "PutLowPriv"
+			if i%2 == 1 {
+				opn = "PutNewLowPriv"
+			}
+			r6 = c.do(ni, opn, func() (error, [][]byte) {
+				err, _ := s.putLowPriv(name, payload, i%2 == 1)
+				return err, nil
+			})
+			if !ni.Esc && r6.OK {
+				_ = s.del(name)
+			}
+		}
 		c.sample(ni, r1, r2, r3, r4, r5)
 
 		// query results must be records of this root
@@ -162,6 +214,10 @@ func runFstree(c *cctx, viaDB bool) {
 				bad = "Put failed: " + r2.Err
 			case !r3.OK || len(r3.blobs) != 1 || !bytes.Contains(r3.blobs[0], payload):
 				bad = "Get after Put did not return the record: " + r3.Err
+			case rm != nil && !rm.OK:
+				bad = "GetMeta after Put failed: " + rm.Err
+			case r6 != nil && !r6.OK:
+				bad = "Put through an interface without full permissions failed: " + r6.Err
 			case !r4.OK:
 				bad = "Query failed: " + r4.Err
 			case !r5.OK:
